@@ -17,6 +17,11 @@ CLAIMS = {
    text="Decides necessary structural conditions for the exporter's background goroutines and lifecycle: no ExportingProcess field is shared between a background goroutine and the API with a write unless atomic / commonly locked / synchronising type; templatesMap only under templateMutex incl. aliases; all exits lock-balanced; goroutines tracked by the wait group, observe stopCh, call the internal close on failure, never wait on their own wait group; close(stopCh)/conn.Close only behind isClosed.Swap(true)==false; periodic tick source. Timing (check interval, refresh period) and bytes-after-close are not decided.",
    note="Trusted: sync/atomic, time.Ticker, net.Conn.Write atomicity per call; application sends from one goroutine (property's proviso).",
    ref="DESIGN.md §5 C14"),
+ "C20": dict(
+   technique="lockset incl. slice aliases, relational edge facts for the count clamp, normalised comparison against the cap constant, path rule 'every locked path appends once', exhaustiveness/getter tables lifted from the AST",
+   text="Decides the structural conditions of the bounded ordered window: store and its aliases only under the mutex; only add/query/reset touch it; eviction exactly at len >= cap by s=s[1:] and exactly one append per message on every path (so len <= cap and arrival order by a ±1 shape argument); query count proven within [0,len] on every edge into the suffix slice; refusals never reach the store; reset stores an empty slice; rendering loops cannot skip; the data-type switch covers every supported type with an accessor its concrete element declares. HTTP/JSON behaviour and text-vs-value equality are not decided.",
+   note="Trusted: net/http, fmt; go/ssa fidelity. Shapes other than reslice-from-front eviction are reported as unrecognised.",
+   ref="DESIGN.md §5 C20"),
 }
 NOT_YET = "rules designed (DESIGN.md §5) but not built yet in this round; no claim is made until the check exists"
 props=[json.loads(l) for l in open('/verif/properties.jsonl')]
